@@ -21,7 +21,11 @@
 #include <cinttypes>
 
 #include <etl/cctype.hpp>
-#include <etl/cstdlib.hpp>
+// only the anchored <cstdlib> pieces: the umbrella header drags in <etl/type_traits>, whose __is_scalar
+// builtin use does not survive libstdc++'s own __is_scalar when the compiler is clang
+#include <etl/_cstdlib/div.hpp>
+#include <etl/_cstdlib/labs.hpp>
+#include <etl/_cstdlib/llabs.hpp>
 #include <etl/cstring.hpp>
 #include <etl/cwchar.hpp>
 #include <etl/cwctype.hpp>
